@@ -9,7 +9,7 @@ from ..absint import Evaluator, Opaque, Unknown, EvalRaise
 from ..cfg import CFG, Node, describe_path, no_exc
 from ..effects import CONST, FRESH, SELF, Eff, Registration, bind_args
 from ..program import FuncInfo, ancestors, enclosing_stmt, norm, parent, walk_local
-from .common import same_key_rebuild
+from .common import incoming_element, same_key_rebuild
 
 EXPLANATION = (
     "Decided for all paths of every context-aware operation (functions that consult get_context, resettable "
@@ -95,10 +95,6 @@ def run(ctx) -> None:
 
 # ------------------------------------------------------------------------------ exactness of undo entries
 SET_REMOVERS = {"remove", "discard", "_dissociate_gene"}
-IDEMPOTENT_EXCEPTIONS = {
-    ("core.model.Model.add_reactions", "context(partial(model_metabolite._reaction.remove, reaction))"):
-        "the reaction comes from `pruned` (not in the model); by the back-reference invariant (C02.backref) no model metabolite lists a reaction that is not in the model",
-}
 REPLACEABLE = (".solver.objective",)
 
 
@@ -157,8 +153,8 @@ def check_exact(ctx, regs: List[Registration]) -> None:
                         guarded = True
         if guarded:
             ctx.ok("C03.exact", r.fn, enclosing_stmt(r.node), f"removal of `{elem}` is registered only when it was absent before (pre-state membership test)")
-        elif key in IDEMPOTENT_EXCEPTIONS:
-            ctx.ok("C03.exact", r.fn, enclosing_stmt(r.node), f"frozen: {IDEMPOTENT_EXCEPTIONS[key]}")
+        elif isinstance(r.args[0], ast.Name) and incoming_element(ctx, r.fn, r.args[0].id):
+            ctx.ok("C03.exact", r.fn, enclosing_stmt(r.node), f"`{elem}` is an element of the collection this operation inserts into the model (not listed before: the insertion rejects duplicates); by the back-reference invariant (C02.backref) no model object lists it yet")
         else:
             ctx.bad("C03.exact", r.fn, enclosing_stmt(r.node), f"the undo entry removes `{elem}` from a set although adding to a set is idempotent and nothing shows that `{elem}` was absent before: for an element that was already there the exit removes a link that existed on entry (e.g. `with model: model.repair()` wipes every gene-reaction link)")
 
